@@ -32,6 +32,8 @@ type optLetter struct {
 func c18Alphabet() []optLetter {
 	return []optLetter{
 		{name: "Tag(bexpr)", kind: 0, tag: "bexpr"}, {name: "Tag(json)", kind: 0, tag: "json"}, {name: "Tag(\"\")", kind: 0, tag: ""},
+		// a legal struct-tag key that begins with punctuation and ends with a combining mark (NFD e-acute)
+		{name: "Tag(-e+U+0301)", kind: 0, tag: "-e\u0301"},
 		{name: "Hook(nil)", kind: 1, hook: HookNone}, {name: "Hook(identity)", kind: 1, hook: HookIdentity}, {name: "Hook(unwrap)", kind: 1, hook: HookUnwrap}, {name: "Hook(const42)", kind: 1, hook: HookConst},
 		{name: "Unknown(0)", kind: 2, unk: NInt(KInt, false, 0)}, {name: "Unknown(\"\")", kind: 2, unk: str("")}, {name: "Unknown(a)", kind: 2, unk: str("a")},
 		{name: "Max(0)", kind: 3, bud: 0}, {name: "Max(N+1)", kind: 3, bud: 1}, {name: "Max(2^64-1)", kind: 3, bud: 2}, {name: "Max(N-1)", kind: 3, bud: 3},
@@ -49,7 +51,7 @@ func c18Docs() []*Node {
 	mp := func(kv ...*Node) *Node { return NMap(TStr, TAny, kv...) }
 	two, three := NInt(KInt, false, 2), NInt(KInt, false, 3)
 	return []*Node{
-		NStruct(F{Name: "A", Tag: `bexpr:"a" json:"ja"`, V: NAny(one)}, F{Name: "J", Tag: `json:"a" bexpr:"-"`, V: NAny(two)}, F{Name: "P", Tag: `pointer:"a" json:"pa"`, V: NAny(three)},
+		NStruct(F{Name: "A", Tag: `bexpr:"a" json:"ja"`, V: NAny(one)}, F{Name: "J", Tag: `json:"a" bexpr:"-"`, V: NAny(two)}, F{Name: "P", Tag: "pointer:\"a\" json:\"pa\" -e\u0301:\"a\"", V: NAny(three)},
 			F{Name: "M", Tag: `bexpr:"m" json:"m" pointer:"m"`, V: mp(str("b"), one)}),
 		mp(str("a"), NWrapper(one), str("w"), NWrapper(mp(str("x"), one)), str("m"), mp(str("b"), NWrapper(one))),
 		mp(str("a"), one, str("m"), mp(str("b"), one), str("w"), mp(str("x"), one), str("l"), NSlice(TAny, one)),
